@@ -182,6 +182,11 @@ def _local_source(body, l, depth, env):
             elif t1 in SRC_PASS:
                 pp = op_place(t["args"][0])
                 res.add(_place_source(body, pp, depth + 1, env) if pp else None)
+            elif t1 in ("map", "copied", "cloned", "inspect") and "iterator::Iterator" in name and (t1 != "map" or _maps_handle_to_system(body, t)):
+                # element-wise adaptors keep the collection, its order and its length; `map` only when it projects each
+                # registration to its own system id (`.map(ReactorHandle::sys_command)` / `.map(|h| h.sys_command())`)
+                pp = op_place(t["args"][0])
+                res.add(_place_source(body, pp, depth + 1, env) if pp else None)
             else:
                 res.add(None)
         elif d[0] == "arg":
@@ -189,6 +194,28 @@ def _local_source(body, l, depth, env):
     if len(res) == 1:
         return next(iter(res))
     return None
+
+
+def _maps_handle_to_system(body, t):
+    """the function given to Iterator::map is ReactorHandle::sys_command (as an item, or a closure that only calls it on its
+    parameter)"""
+    if len(t["args"]) < 2:
+        return False
+    fa = op_fn(t["args"][1])
+    if fa is not None:
+        return lib.tail(mir.fn_name(fa), 2) == "ReactorHandle::sys_command"
+    prog = getattr(body, "prog", None)
+    for o in origins(body, t["args"][1]):
+        if o[0] == "fnitem":
+            return lib.tail(o[1], 2) == "ReactorHandle::sys_command"
+        if o[0] == "agg" and prog is not None:
+            agg = body.blocks[o[1]]["stmts"][o[2]]["rv"]["agg"]
+            cb = prog.body(agg.get("closure")) if agg.get("kind") == "closure" else None
+            if cb is not None:
+                calls = [(b, t2, fr) for b, t2, fr in cb.iter_calls() if fr is not None]
+                return len(calls) == 1 and lib.tail(mir.fn_name(calls[0][2]), 2) == "ReactorHandle::sys_command" \
+                    and all(x[0] == "arg" and x[1] == 2 for x in origins(cb, calls[0][1]["args"][0]))
+    return False
 
 
 def _rtype_key(body, op):
